@@ -295,16 +295,17 @@ def run_signprobe(spec, rec, lib):
             o = boundary.call(lib, A.verify_signable, env, [k.hex], 1)
         rec.case("signprobe|" + hashlib.sha256(ref).hexdigest())
         case = {"kind": "signprobe", "value": v, "key": k.seed.hex()}
-        for ev in sp.events:
-            rec.count("probe_sign_events")
-            if ev["data"] != ref:
-                rec.violation("primitive-probe/sign_signable/signed-bytes-differ-from-reference",
-                              "signer handed other bytes to the primitive", case)
-        for ev in vp.events:
-            rec.count("probe_verify_events")
-            if ev["data"] != ref:
-                rec.violation("primitive-probe/verify_signable/verified-bytes-differ-from-reference",
-                              "verifier handed other bytes to the primitive", case)
+        rec.count("probe_sign_events", len(sp.events))
+        rec.count("probe_verify_events", len(vp.events))
+        # the canonical bytes must reach the primitives; further primitive calls over other data are only tallied
+        if sp.events and not any(ev["data"] == ref for ev in sp.events):
+            rec.violation("primitive-probe/sign_signable/signed-bytes-differ-from-reference",
+                          "signer handed other bytes to the primitive", case)
+        if vp.events and o.accepted and not any(ev["data"] == ref for ev in vp.events):
+            rec.violation("primitive-probe/verify_signable/verified-bytes-differ-from-reference",
+                          "verifier handed other bytes to the primitive", case)
+        if any(ev["data"] != ref for ev in list(sp.events) + list(vp.events)):
+            rec.count("hint_probe_extra_primitive_events_over_other_data")
         sp.events.clear()
         vp.events.clear()
     if sp.total == 0:
